@@ -491,7 +491,7 @@ def dims_time(ctx: Ctx) -> None:
     tjudge(ctx, "R-DIM", f, "no time elapses inside a warp; otherwise elapsed time = (asked beat - state's beat) * 60 / bpm, in seconds; the pause length float(event.value) is added exactly for "
            "state tag in {STOP, DELAY} and asked tag in {STOP_END, DELAY_END}", decs, [W, ST, QT], lambda a_: ("zero" if a_[W] else "beats*60/bpm", bool(a_[ST] and a_[QT])),
            why="seconds = beats * 60 / (beats per minute); a stop or delay lasts from its start event to its end event")
-    ctx.floor("paths through time_until", len(decs), 4)
+    ctx.floor("paths through time_until", len(decs), 1)
     # advance: one new state per event - the event's beat, value and tag, its time = last state's time + elapsed seconds measured from the last
     # state to (event.beat, event.tag); the BPM changes exactly on a BPM event, the warp flag is set on WARP and cleared on WARP_END
     a = p.func(f"{ENG}:TimingStateMachine.advance")
